@@ -782,6 +782,25 @@ where
     }
 }
 
+/// Verification hooks (`--cfg delaunay_verif` only): raw access for fault injection by the
+/// conformance harness (C05: "validators accept exactly the valid complexes").
+#[cfg(delaunay_verif)]
+impl<T, U, V, const D: usize> Cell<T, U, V, D>
+where
+    U: DataType,
+    V: DataType,
+{
+    /// Raw mutable access to the ordered vertex slots (no invariant is maintained).
+    pub fn verif_vertices_mut(&mut self) -> &mut CellVertexBuffer {
+        &mut self.vertices
+    }
+
+    /// Raw mutable access to the neighbour buffer (no invariant is maintained).
+    pub fn verif_neighbors_mut(&mut self) -> &mut Option<NeighborBuffer<Option<CellKey>>> {
+        &mut self.neighbors
+    }
+}
+
 // Standard trait bounds impl block
 impl<T, U, V, const D: usize> Cell<T, U, V, D>
 where
